@@ -156,7 +156,7 @@ def run(tier: str) -> int:
     ck.assumptions += ['how routes are partitioned over messages is left free; a route repeated with identical content is tolerated']
     rnd = random.Random(seed())
     states = updcheck.gen_rows(ck, 'Gen_ExaPack', 1 if tier == 'quick' else 2, 'c09' + tier[0], invariants=('TableOK',))
-    limit = 200 if tier == 'quick' else 1500
+    limit = 260 if tier == 'quick' else 1500
     ck.cov['exhaustive'] = len(states) <= limit
     if len(states) > limit:
         states = rnd.sample(states, limit)
